@@ -29,6 +29,9 @@ type Engine struct {
 	// CrashIsViolation: if the child process dies inside a journalled case, that is a
 	// violation of this property (crash monitors), not a harness error.
 	CrashIsViolation bool
+	// FP: the workload is run a second time in a failpoint build (gofail sites inserted into a scratch copy of the tree
+	// under test, see /verif/check and internal/fp) while a scheduler holds seeded windows inside the library open.
+	FP bool
 	// MinEvals is the floor below which a run has observed nothing (exit 3).
 	MinEvals int64
 	// Timeout for the child (generous watchdog; expiry = inconclusive unless the engine
@@ -38,7 +41,17 @@ type Engine struct {
 
 var engines = map[string]*Engine{}
 
-func Register(e *Engine) { engines[e.ID] = e }
+// fpIDs: the properties whose workloads run a second time in the failpoint build (everything that has goroutines of the
+// library on the path: accept loop, per-connection handlers, the helper goroutine of every context aware I/O call).
+var fpIDs = map[string]bool{"C01": true, "C02": true, "C03": true, "C04": true, "C10": true, "C11": true, "C12": true, "C13": true,
+	"C14": true, "C15": true, "C17": true, "C18": true}
+
+func Register(e *Engine) {
+	if fpIDs[e.ID] {
+		e.FP = true
+	}
+	engines[e.ID] = e
+}
 func Lookup(id string) *Engine { return engines[id] }
 func IDs() []string {
 	var ids []string
@@ -82,6 +95,7 @@ type Run struct {
 	WorkDir string
 	Repo    string
 	Thorough bool
+	FP       bool // failpoint pass: the quick case counts in both tiers (the thorough tier runs it under three seeds)
 
 	mu        sync.Mutex
 	evals     int64
@@ -110,6 +124,9 @@ func NewRun(tier string, seed int64, workdir, repo string) *Run {
 
 // Pick returns q for the quick tier and t for the thorough tier.
 func (r *Run) Pick(q, t int) int {
+	if r.FP {
+		return q
+	}
 	if r.Thorough {
 		return t
 	}
